@@ -92,7 +92,7 @@ func (g *sgen) inType() (string, string) {
 	return t, lit
 }
 
-func (g *sgen) fields(b *strings.Builder, n int, withArgs bool) []string {
+func (g *sgen) fields(b *strings.Builder, n int, withArgs bool, inline ...bool) []string {
 	names := g.pickNames(fieldNames, n)
 	for _, f := range names {
 		args := ""
@@ -116,6 +116,20 @@ func (g *sgen) fields(b *strings.Builder, n int, withArgs bool) []string {
 		}
 		if g.r.Chance(1, 8) {
 			dir += " @deprecated"
+		}
+		if len(inline) > 0 && inline[0] {
+			// the documented inline configuration directives
+			switch g.r.Intn(12) {
+			case 0, 1:
+				dir += " @goField(forceResolver: true)"
+				g.feature["goField_forceResolver"]++
+			case 2:
+				dir += ` @goTag(key: "yaml", value: "y")`
+				g.feature["goTag"]++
+			case 3:
+				dir += ` @goField(name: "Renamed` + templates.ToGo(f) + `")`
+				g.feature["goField_name"]++
+			}
 		}
 		fmt.Fprintf(b, "  %s%s: %s%s\n", f, args, g.outType(), dir)
 	}
@@ -145,7 +159,11 @@ func Generate(r *gen.Rand) (map[string]string, map[string]int) {
 		g.unions = []string{"AnyThing"}
 	}
 	a, b := &g.files[0], &g.files[1]
-	a.WriteString("directive @tag(name: String, weight: Int = 1) on FIELD_DEFINITION | OBJECT | INPUT_FIELD_DEFINITION | ARGUMENT_DEFINITION\nscalar Custom\n\n")
+	a.WriteString("directive @tag(name: String, weight: Int = 1) on FIELD_DEFINITION | OBJECT | INPUT_FIELD_DEFINITION | ARGUMENT_DEFINITION\nscalar Custom\n" +
+		"directive @goModel(model: String, models: [String!], forceGenerate: Boolean) on OBJECT | INPUT_OBJECT | SCALAR | ENUM | INTERFACE | UNION\n" +
+		"directive @goField(forceResolver: Boolean, name: String, omittable: Boolean, type: String) on INPUT_FIELD_DEFINITION | FIELD_DEFINITION\n" +
+		"directive @goTag(key: String!, value: String) on INPUT_FIELD_DEFINITION | FIELD_DEFINITION\n" +
+		"directive @goExtraField(name: String, type: String!, overrideTags: String, description: String) repeatable on OBJECT | INPUT_OBJECT\n\n")
 	for _, e := range g.enums {
 		fmt.Fprintf(a, "enum %s {\n", e)
 		for _, v := range g.pickColliding(enumValuePool, 2+r.Intn(5)) {
@@ -193,7 +211,7 @@ func Generate(r *gen.Rand) (map[string]string, map[string]int) {
 			g.feature["implements"]++
 		}
 		var fb strings.Builder
-		g.fields(&fb, 1+r.Intn(4), true)
+		g.fields(&fb, 1+r.Intn(4), true, true)
 		// drop fields that the interface already declares (under any spelling that normalises to the same name)
 		taken := map[string]bool{}
 		for _, l := range strings.Split(extra, "\n") {
@@ -213,22 +231,50 @@ func Generate(r *gen.Rand) (map[string]string, map[string]int) {
 		if len(keep) == 0 && extra == "" {
 			keep = append(keep, "  only: Int")
 		}
-		fmt.Fprintf(w, "type %s%s {\n%s%s\n}\n\n", o, impl, extra, strings.Join(keep, "\n"))
+		tdir := ""
+		if r.Chance(1, 6) {
+			tdir = ` @goExtraField(name: "ExtraInfo", type: "int")`
+			g.feature["goExtraField"]++
+		}
+		fmt.Fprintf(w, "type %s%s%s {\n%s%s\n}\n\n", o, impl, tdir, extra, strings.Join(keep, "\n"))
 	}
 	for _, u := range g.unions {
 		fmt.Fprintf(a, "union %s = %s\n\n", u, strings.Join(g.objs, " | "))
 	}
+	// object types that only a root field returns, non-null and never in a list (viewer: Viewer!, a mutation payload,
+	// a subscription event)
 	a.WriteString("type Query {\n")
 	g.fields(a, 2+r.Intn(3), true)
+	viewer := r.Bool()
+	if viewer {
+		a.WriteString("  the_viewer: ViewerOnly!\n")
+		g.feature["type_returned_only_by_a_root_field"]++
+	}
 	a.WriteString("}\n\n")
+	if viewer {
+		a.WriteString("type ViewerOnly {\n  id: ID!\n  name: String!\n}\n\n")
+	}
 	if r.Bool() {
 		b.WriteString("type Mutation {\n")
 		g.fields(b, 1+r.Intn(2), true)
+		payload := r.Bool()
+		if payload {
+			fmt.Fprintf(b, "  make_it(input: Filter): MadePayload!\n")
+			g.feature["type_returned_only_by_a_root_field"]++
+		}
 		b.WriteString("}\n\n")
+		if payload {
+			fmt.Fprintf(b, "type MadePayload {\n  ok: Boolean!\n  made: %s\n}\n\n", g.objs[0])
+		}
 		g.feature["mutation"]++
 	}
 	if r.Chance(1, 3) {
-		b.WriteString("type Subscription {\n  ticks(type: Int): Int\n}\n\n")
+		if r.Bool() {
+			b.WriteString("type Subscription {\n  ticks(type: Int): Int\n  events: EventOnly!\n}\n\ntype EventOnly {\n  at: Int!\n}\n\n")
+			g.feature["type_returned_only_by_a_root_field"]++
+		} else {
+			b.WriteString("type Subscription {\n  ticks(type: Int): Int\n}\n\n")
+		}
 		g.feature["subscription"]++
 	}
 	if r.Bool() {
